@@ -3,7 +3,7 @@
 # (sandbox = rsync of /verif + a worktree of /repo; used while other work needs /repo itself undisturbed)
 set -u
 SID=$1; shift
-EV=/tmp/ev
+EV=${EV:-/tmp/ev}
 git -C $EV/repo checkout -q -- . ; git -C $EV/repo checkout -q --detach $(git -C /repo rev-parse HEAD) 2>/dev/null
 rsync -a --exclude evidence/replay --exclude lean/.lake --exclude .cache --exclude lean/MjwVerif/Gen --exclude lean/MjwVerif/Audit /verif/ $EV/verif/
 git -C $EV/repo apply /verif/seeded/$SID/patch.diff || { echo "apply failed"; exit 2; }
